@@ -214,7 +214,8 @@ func (g *docgen) pi(decl bool) {
 	} else {
 		for k := rapid.IntRange(0, 2).Draw(t, "npi"); k > 0; k-- {
 			if rapid.Bool().Draw(t, "word") {
-				w := rapid.StringMatching(`[a-z0-9.:#-]{1,5}`).Draw(t, "piword")
+				// the data of a processing instruction ends at "?>" only: > and /> are ordinary characters of it
+				w := rapid.OneOf(rapid.StringMatching(`[a-z0-9.:#-]{1,5}`), rapid.SampledFrom([]string{">", "/>", "a>b", "->", "x/>", ">>", "<b>", "</b>", "?", "a?b"})).Draw(t, "piword")
 				g.toks = append(g.toks, tok{xml.AttributeToken, wsp(t, 1) + w, w, noVal})
 			} else if a, kv, ok := g.attribute(wsp(t, 1), used); ok {
 				// "?>" inside a quoted pseudo-attribute would end the instruction for a conforming reader
